@@ -132,7 +132,7 @@ func classifyRes(err error) string {
 type ChildSpec struct {
 	Name   int    `json:"name"`
 	Style  string `json:"style"`  // "N" NonBlocking | "U" UntilRunDone
-	Exit   string `json:"exit"`   // "S" OnSignal | "F" Free
+	Exit   string `json:"exit"`   // "S" OnSignal | "F" Free | "E" Free: returns the error L7 when stopped
 	RK     string `json:"rk"`     // "W" ReloadWithConfig | "P" Reload | "-" neither
 	Nested bool   `json:"nested"` // a real composite.Runner (UntilRunDone, OnSignal, Reload)
 }
@@ -186,6 +186,11 @@ func (m *mock) Run(ctx context.Context) error {
 	es := "nil"
 	select {
 	case <-sigch:
+		if m.spec.Exit == "E" {
+			// e.g. a server that reports a shutdown timeout when it is stopped
+			err = sentinels[7]
+			es = "L7"
+		}
 	case <-ctx.Done():
 		err = ctx.Err()
 		es = "C"
